@@ -98,7 +98,7 @@ def stepCompile (env : Env) (st : State) (r : CReq) : State × CObs :=
     let aLast : Option Tok := match r.out with
       | .ok | .statePickleFail | .resultUnpicklable => some r.ns
       | .okNoState => none
-      | .raise => a'.last
+      | .raise | .requestUnreadable => a'.last
     let a'' := { a' with last := aLast }
     match r.out with
     | .resultUnpicklable =>
